@@ -78,7 +78,7 @@ func genC01(rt *rapid.T) core.Scenario {
 				Once:   rapid.IntRange(0, 3).Draw(rt, l+"Once") == 3,
 				Async:  rapid.IntRange(0, 4).Draw(rt, l+"Async") == 4,
 				Seq:    rapid.IntRange(0, 4).Draw(rt, l+"Seq") == 4,
-				Filter: rapid.SampledFrom([]int{0, 0, 0, 1, 2, 3, 4}).Draw(rt, l+"Filter"),
+				Filter: rapid.SampledFrom([]int{0, 0, 0, 1, 2, 3, 4, 11, 12, 14}).Draw(rt, l+"Filter"),
 			}
 		case "unsub":
 			op.Type = drawType(l + "T")
